@@ -47,7 +47,9 @@ Judge(c, hist, S) ==
      \* scenarios with panicking callbacks: whether a panic propagates or is turned into an error is the library's
      \* choice; what a run that does return must satisfy is not - an action or an error, never neither, never the empty
      \* action with a nil error
-     LET bad == IF c.fam = "enginezero" THEN {}
+     \* (scenarios with a retry budget below one: the budget-independent properties - routing, cancellation, nesting, the
+     \* action rule - are judged; the lifecycle and budget properties are quantified over budgets >= 1)
+     LET bad == IF c.fam = "enginezero" THEN {p \in {"C03", "C05", "C10", "C18"} : res[p] # {}}
                 ELSE IF c.fam = "enginepanic"
                      THEN {p \in {"C01", "C18"} : res[p] \cap {"retXor", "nonEmpty"} # {}}
                      ELSE {p \in DOMAIN res : res[p] # {}} IN
